@@ -236,8 +236,37 @@ class TRot(TSpec):
         return f"_rotation_from_matrix([{', '.join(rows)}])"
 
 
+class TBackend(TSpec):
+    """the numpy Backend object: the real acryo.backend._api.Backend class is instantiated by interpretation, so its
+    thin wrapper methods are executed from source (inlined) over the numpy / scipy stubs"""
+
+    def fresh(self, name, path):
+        interp = path.interp
+        cls = interp.resolve("acryo.backend._api:Backend")
+        return interp.instantiate(cls, [], {})
+
+    def src(self, name, model):
+        return "_Backend()"
+
+
+def fresh_array(name, ndim, kind="real", shape=None, path=None, min_size=0):
+    """a fresh array value for modular-call results: symbolic shape (unless given) and uninterpreted elements"""
+    n = V.fresh_name(name)
+    if shape is None:
+        shape = tuple(Sym(z3.Int(f"{n}_shape_{i}")) for i in range(ndim))
+        if path is not None:
+            for s_ in shape:
+                path.assume(s_ >= min_size)
+    rng = {"real": z3.RealSort(), "int": z3.IntSort(), "bool": z3.BoolSort()}[kind]
+    f = z3.Function(f"{n}_elem", *([z3.IntSort()] * len(shape)), rng)
+    if len(shape) == 0:
+        return Sym(f())
+    return SArr(tuple(shape), lambda idx: Sym(f(*[V.lift(i) for i in idx])), kind)
+
+
 class T:
     Rot = TRot
+    Backend = TBackend
     Int, Real, Bool, Tuple, List, Const, OneOf, Slice, Vec, Arr = (
         TInt, TReal, TBool, TTuple, TList, TConst, TOneOf, TSlice, TVec, TArr)
 
